@@ -621,6 +621,20 @@ pub fn c05(out: &mut dyn Write, tier: &str, rng: &mut Rng, st: &mut Stats) {
         st.hit(&format!("cntcmp.{}.{}x{}", op, la, lb));
         st.hit(if r.is_const() { "result.const" } else { "result.choice" });
     }
+    // the two lists drawn from one small pool of operands, with repetitions: equal as sets, permutations of
+    // each other, or differing only in how often an operand occurs
+    for i in 0..n / 4 {
+        let k = 1 + rng.below(3) as usize;
+        let pool: Vec<B> = (0..k).map(|_| operand(rng)).collect();
+        let la = rng.below(5) as usize;
+        let lb = if i % 2 == 0 { la } else { rng.below(5) as usize };
+        let a: Vec<B> = (0..la).map(|_| Rc::clone(rng.pick(&pool[..]))).collect();
+        let b: Vec<B> = (0..lb).map(|_| Rc::clone(rng.pick(&pool[..]))).collect();
+        let op = *rng.pick(&["leq", "lt", "geq", "gt", "eq", "eq"]);
+        let r = cntcmp(&env, op, &a, &b);
+        writeln!(out, "C05|cntcmp|{}|{}|{}|{}", op, show_list(&a), show_list(&b), show(&r)).unwrap();
+        st.hit("cntcmp.same-pool");
+    }
 }
 
 fn unary_functions(tier: &str, rng: &mut Rng) -> Vec<B> {
@@ -659,6 +673,28 @@ pub fn c07(out: &mut dyn Write, tier: &str, rng: &mut Rng, st: &mut Stats) {
             st.hit(tag);
             st.hit(&format!("infer.answer.{}{}", a as u8, b as u8));
         }
+    }
+}
+
+/// an ordered diagram written directly through the public enum: tests may be redundant (both outcomes the
+/// same diagram) and inner nodes may be unsatisfiable or valid — legal inputs that `mk_choice` never produces
+fn raw_ordered(rng: &mut Rng, vars: &[usize], from: usize) -> B {
+    if from >= vars.len() || rng.chance(1, 5) { return Rc::new(if rng.chance(1, 2) { BDD::True } else { BDD::False }); }
+    if rng.chance(1, 5) { return raw_ordered(rng, vars, from + 1); }
+    let t = raw_ordered(rng, vars, from + 1);
+    let f = if rng.chance(1, 4) { Rc::clone(&t) } else { raw_ordered(rng, vars, from + 1) };
+    Rc::new(BDD::Choice(t, vars[from], f))
+}
+
+pub fn c07_raw(out: &mut dyn Write, tier: &str, rng: &mut Rng, st: &mut Stats) {
+    let env: BDDEnv<usize> = BDDEnv::new();
+    let n = if tier == "thorough" { 200000 } else { 6000 };
+    for i in 0..n {
+        let vars: Vec<usize> = if i % 2 == 0 { vec![0, 1, 2, 3] } else { vec![1, 4, 9] };
+        let f = raw_ordered(rng, &vars, 0);
+        let r = env.model(Rc::clone(&f));
+        writeln!(out, "C07|model|{}|{}", show(&f), show(&r)).unwrap();
+        st.hit(if r.is_false() { "raw.model.false" } else { "raw.model.cube" });
     }
 }
 
